@@ -606,9 +606,17 @@ impl World for C12World {
             let base = operands.len() as u32;
             operands.extend([grid, cover]);
             let op = *r.pick(&[0u8, 1, 3]);
+            // on one client, or on two clients at once (two large ring assemblies overlapping step by step)
             let c = r.below(clients.len() as u64) as usize;
             let at = r.below(clients[c].len() as u64 + 1) as usize;
-            clients[c].insert(at, Step { retire: false, op, lhs: Src::Pool(base), rhs: Src::Pool(base + 1), pairing: 0, f32_: false, heap: 0, clone_ops: false, cancel: 0, save: false, repeat: 2 });
+            let big_step = |op: u8| Step { retire: false, op, lhs: Src::Pool(base), rhs: Src::Pool(base + 1), pairing: 0, f32_: false, heap: 0, clone_ops: false, cancel: 0, save: false, repeat: 2 };
+            clients[c].insert(at, big_step(op));
+            if clients.len() >= 2 && r.chance(1, 2) {
+                let c2 = (c + 1 + r.below(clients.len() as u64 - 1) as usize) % clients.len();
+                let at2 = r.below(clients[c2].len() as u64 + 1) as usize;
+                let op2 = *r.pick(&[0u8, 1, 3]);
+                clients[c2].insert(at2, big_step(op2));
+            }
         }
         let yield16 = if faulty { *fr.pick(&[0u64, 1, 1, 4, 16]) } else { 0 };
         C12World {
